@@ -10,5 +10,6 @@ def run(ck):
     algebra.r3_table_lengths(ck, P)
     decided = factors.r4_c_combiners(ck, P)
     factors.r9_simd_combiners(ck, P)
+    factors.r10_composite_bodies(ck, P)
     floatmask.r5_float_mask(ck, P)
     floatmask.r6_c_mask(ck, P, decided or ())
